@@ -271,10 +271,11 @@ func (tx *Tx) serialize(buf io.Writer, includeWitnesses bool) (n int64, err erro
 	}
 
 	// Add version number
-	if err = binary.Write(buf, binary.LittleEndian, tx.Version); err != nil {
+	j, err := writeLE(buf, uint64(uint32(tx.Version)), 4)
+	n += int64(j)
+	if err != nil {
 		return
 	}
-	n += int64(binary.Size(tx.Version))
 
 	// Add witness flag if needed
 	if len(tx.Inputs) > 0 && includeWitnesses && len(tx.Witnesses) > 0 {
@@ -330,11 +331,8 @@ func (tx *Tx) serialize(buf io.Writer, includeWitnesses bool) (n int64, err erro
 		}
 	}
 
-	if err = binary.Write(buf, binary.LittleEndian, tx.Locktime); err != nil {
-		return
-	}
-
-	n += int64(binary.Size(tx.Locktime))
+	j, err = writeLE(buf, uint64(tx.Locktime), 4)
+	n += int64(j)
 	return
 }
 
